@@ -15,7 +15,7 @@ def known_classes(drv):
     return {f["class"]: f for f in kf.get("findings", []) if f.get("property") == "C12"}
 
 
-UNIT_CLASS = {"osint": "sint_oneof", "fdnames": "fd_name_collision"}
+UNIT_CLASS = {"osint": "sint_oneof", "fdnames": "fd_name_collision", "shadow_user": "import_shadowed_by_local"}
 
 
 def unit_class(name):
